@@ -617,6 +617,37 @@ pub open spec fn reads_le(o: Ordering) -> bool { o == Ordering::Less || o == Ord
 pub open spec fn reads_gt(o: Ordering) -> bool { o == Ordering::Greater }
 pub open spec fn reads_ge(o: Ordering) -> bool { o == Ordering::Greater || o == Ordering::Equal }
 
+// ---------------------------------------------------------------------------------
+// C12: the relational half of the statement as lemmas over `lex_cmp` and the four readings
+// ---------------------------------------------------------------------------------
+pub open spec fn ord_rev(o: Ordering) -> Ordering {
+    match o { Ordering::Less => Ordering::Greater, Ordering::Equal => Ordering::Equal, Ordering::Greater => Ordering::Less }
+}
+pub open spec fn ord_rev_opt(o: Option<Ordering>) -> Option<Ordering> { match o { Some(x) => Some(ord_rev(x)), None => None } }
+
+/// exactly one of `a < b`, `a == b`, `a > b` holds; `a <= b` is the negation of `a > b`, `a >= b` of `a < b`; and `a < b` iff `b > a`
+/// (the four instructions are proved to be these four readings of one Ordering)
+//@@LEMMA C12
+pub proof fn lemma_readings_of_one_ordering(o: Ordering)
+    ensures
+        (reads_lt(o) && o != Ordering::Equal && !reads_gt(o)) || (!reads_lt(o) && o == Ordering::Equal && !reads_gt(o)) || (!reads_lt(o) && o != Ordering::Equal && reads_gt(o)),
+        reads_le(o) == !reads_gt(o), reads_ge(o) == !reads_lt(o),
+        reads_lt(o) == reads_gt(ord_rev(o)), reads_le(o) == reads_ge(ord_rev(o)),
+{
+}
+
+/// swapping the operands reverses the lexicographic order, provided the element order does
+//@@LEMMA C12
+pub proof fn lemma_lex_cmp_antisymmetric<T: PartialOrd>(ls: Seq<T>, rs: Seq<T>, k: int)
+    requires forall|x: T, y: T| #![trigger x.partial_cmp_spec(&y)] y.partial_cmp_spec(&x) == ord_rev_opt(x.partial_cmp_spec(&y)),
+    ensures lex_cmp(rs, ls, k) == ord_rev_opt(lex_cmp(ls, rs, k))
+    decreases ls.len() - k
+{
+    if k >= 0 && k < ls.len() && k < rs.len() {
+        lemma_lex_cmp_antisymmetric(ls, rs, k + 1);
+    }
+}
+
 /// which of the four range instructions `make_range_internal` is running
 pub open spec fn range_instruction(start_exclusive: bool, end_exclusive: bool) -> Instruction {
     if start_exclusive { if end_exclusive { Instruction::MakeExclusiveRange } else { Instruction::MakeStartExclusiveRange } }
